@@ -32,7 +32,7 @@ B("C01", "bundleref-eq-inst", F_BUNDLE, "return self.parent is other.parent and 
 B("C01", "list-slice-ignore-step", F_SLICES, "idx = parent.bot + slize.bot * parent.step", "idx = parent.bot + slize.bot", "C01.8")
 B("C01", "list-slice-first-neg", F_SLICES, "first = _list_slice(slize.parent[slize.top - 1])", "first = _list_slice(slize.parent[slize.top])", "C01.8")
 B("C01", "full-width-shortcut-any-step", F_SLICES, "if slize.step == 1 and width(slize) == width(slize.parent):", "if width(slize) == width(slize.parent):", "C01.8")
-B("C01", "resolve-concat-tail-order", F_SLICES, "return Concat(*(first.parts + rest.parts))", "return Concat(*(rest.parts + first.parts))", "C01.8")
+B("C01", "resolve-concat-tail-order", F_SLICES, "return Concat(*(first.parts + rest))", "return Concat(*(rest + first.parts))", "C01.8")
 B("C01", "pass-writes-conns", F_SLICES, "                    inst.connect(portname, resolved)", "                    inst.conns[portname] = resolved", "C01.9")
 B("C01", "update-ref-deps-break", F_RRT, "        connected_port.inst.replace(connected_port.portname, resolved)\n", "        connected_port.inst.replace(connected_port.portname, resolved)\n        break\n", "C01.10")
 B("C01", "handle-portconn-skip-first", F_PORTREFS, "        for portref in group_port_refs:\n            resolve_portref(portref, source)", "        for portref in group_port_refs[1:]:\n            resolve_portref(portref, source)", "C01.10")
@@ -218,6 +218,17 @@ B("C08", "generated-by-set-before-naming", F_GENERATOR, "        handed_on = m._
 B("C11", "vpulse-params-required", F_IMPORT, "            v1=params.get(\"v1\", None),", "            v1=params[\"v1\"],", "C11.2")
 B("C11", "unlisted-gets-default", F_IMPORT, "                params = target.Params(**unset_params(target, literal_params(target, params)))", "                params = target.Params(**literal_params(target, params))", "C11.2")
 B("C11", "literal-imported-as-string", F_IMPORT, "                params = target.Params(**unset_params(target, literal_params(target, params)))", "                params = target.Params(**unset_params(target, params))", "C11.2")
+
+B("C10", "roles-stay-unnamed", F_BUNDLE, "            if val.name is None:\n                val.name = key\n            roles_dict[key] = val", "            roles_dict[key] = val", "C10.2")
+
+B("C03", "concat-tail-never-empty", F_SLICES, "        first = _resolve_concat(conc.parts[0])\n        rest = _resolve_rest(conc.parts[1:])\n        return Concat(*(first.parts + rest))", "        first = _resolve_concat(conc.parts[0])\n        rest = _resolve_concat(Concat(*conc.parts[1:]))\n        return Concat(*(first.parts + rest.parts))", "C03.9")
+B("C03", "leading-slice-not-listed", F_SLICES, "        first = _list_slice(conc.parts[0])\n        # Pass everything else recursively back to this method\n        rest = _resolve_rest(conc.parts[1:])\n        # And concatenate the two\n        return Concat(*(tuple(first) + rest))", "        first = _resolve_slice(conc.parts[0])\n        # Pass everything else recursively back to this method\n        rest = _resolve_rest(conc.parts[1:])\n        # And concatenate the two\n        return Concat(*(first + rest))", "C03.9")
+
+B("C18", "setattr-names-before-refusal", F_MODULE, "        if self._elaborated is not None:\n            raise RuntimeError(f\"Cannot add {val} to {self} after elaboration.\")\n\n        # Checks out! Name `val`", "        # Checks out! Name `val`", "C18.4")
+
+B("C09", "definition-site-in-pydantic", "hdl21/source_info.py", "        if frame.f_code.co_filename not in files_to_skip and not _in_pydantic(frame):", "        if frame.f_code.co_filename not in files_to_skip:", "C09.5")
+
+B("C04", "follow-stale-instances", F_PORTREFS, "                if connected_port.inst._parent_module is module:\n                    follow(connected_port, group)", "                follow(connected_port, group)", "C04.6")
 
 # ------------------------------------------------------------------ C19
 B("C19", "series-net-too-wide", F_GENERATORS, "i = m.add(h.Signal(name=\"i\", width=params.nser - 1))", "i = m.add(h.Signal(name=\"i\", width=params.nser))", "C19.1")
